@@ -470,6 +470,44 @@ def _c_contend_shape(u, consts, cname):
         return 'contend function shape not recognised (predicates %d, tables %s)' % (len(conds), sorted(tnames))
     return conds, iocmap, next(iter(tnames))
 
+def order_rule(ctx, m):
+    """C19.6: the contention delay of an instruction is computed from the memory configuration in force while it executes.  A port write
+    that can page memory (the out7ffd() call behind the OUT macro in C, the out tracer in Python) changes which bank sits at 0xC000, and the
+    contention functions read that (the odd-bank test).  So on every path of every handler, all contend() calls come before the first
+    paging port write."""
+    ctx.rule('C19.6-contend-before-paging', 'on every path of every contended handler all contend() calls precede the port write that can page memory (C: out7ffd(); Python: out tracer)', floor=20)
+    for s in m.slots():
+        if m.is_prefix(s):
+            continue
+        for impl in ('cm', 'cc'):
+            try:
+                paths = m.raw_paths(impl, s)
+            except Unsupported:
+                continue
+            has_out = False
+            bad = None
+            for p in paths:
+                kinds = []
+                for e in p.events:
+                    if e[0] == 'contend':
+                        kinds.append(('contend', e[-1]))
+                    elif e[0] == 'page' or (e[0] == 'tracer' and e[1] == 'out_tracer'):
+                        kinds.append(('page', e[-1]))
+                if any(k == 'page' for k, l in kinds):
+                    has_out = True
+                    first_page = next(i for i, (k, l) in enumerate(kinds) if k == 'page')
+                    late = [l for k, l in kinds[first_page + 1:] if k == 'contend']
+                    if late and bad is None:
+                        bad = (kinds[first_page][1], late[0])
+            if not has_out:
+                continue
+            name = '%s %s' % (s.key(), impl)
+            if bad:
+                ctx.violation(name, m.where(impl, s), 'slot %s (%s, %s): the port write that can page memory (line %s) happens before contend() (line %s): the delay is computed with the new bank\'s parity instead of the one in force during the instruction' %
+                              (s.key(), s.handler, impl, bad[0], bad[1]))
+            else:
+                ctx.ok({'slot': s.key(), 'impl': impl})
+
 def run(ctx):
     repo = pyfacts.Repo(ctx.repo_root)
     m = simfacts.SimModel(repo)
@@ -481,6 +519,7 @@ def run(ctx):
     ctx.rule('C19.5-patterns', 'contention patterns and delay use agree between CMIOSimulator and the C -DCONTENTION build (second in-repo oracle for cycle lists)', floor=1100)
     compare_slots(ctx, m, (('cm', 'cc'),), 'C19.5-patterns')
     predicate_rules(ctx, repo, m)
+    order_rule(ctx, m)
     ctx.assume('the documented ULA pattern: 192 lines, 128 contended T-states per line from T=14335 (48K, 224 T/line) / 14361 (128K, 228 T/line), delays 6,5,4,3,2,1,0,0')
     from sa.rules import memo
     memo.run_for(ctx, repo, 'C19')
